@@ -144,6 +144,30 @@ class Check(Property):
         return canon([c["a"], c["b"]]) if c["a"] != c["b"] else None
 
     # ------------------------------------------------------------------ oracle
+    @staticmethod
+    def float_excursion(reg, units):
+        """smallest and largest magnitude the running product of _get_root_units_recurse takes for `units` (same order)"""
+        lo, hi, acc = [1.0], [1.0], [1.0]
+
+        def rec(ref, exp):
+            for key in ref:
+                e2 = exp * ref[key]
+                d = reg._units[reg.get_name(key)]
+                if not d.is_base:
+                    try:
+                        acc[0] *= float(d.converter.scale) ** float(e2)
+                    except OverflowError:
+                        acc[0] = float("inf")
+                    a_ = abs(acc[0])
+                    if a_ != 0:
+                        lo[0], hi[0] = min(lo[0], a_), max(hi[0], a_)
+                    else:
+                        lo[0] = 0.0
+                    if d.reference is not None:
+                        rec(d.reference, e2)
+        rec(units, 1)
+        return lo[0], hi[0]
+
     def oracle(self, c):
         P = regs.pools()
         proj = P.proj
@@ -214,13 +238,18 @@ class Check(Property):
                 if want != 0 and not math.isinf(r) and r != 0 and 1e-290 < abs(float(want)) < 1e290:
                     rel = abs(Fraction(r) / want - 1)
                     if rel > Fraction(64, 2 ** 53):
-                        v.append(f"{tag} [float]: got {r!r}, exact {float(want)!r}, relative error {float(rel):.3g}")
+                        known = ""
+                        lo, hi = self.float_excursion(uf, pint_uc(uf, c["a"], "float", canonical=True) / pint_uc(uf, c["b"], "float", canonical=True))
+                        if lo < 1e-290 or hi > 1e290:
+                            known = (f" [known finding F61] (the running product of the factors leaves the normal float range on the way: "
+                                     f"{lo:.3g} .. {hi:.3g})")
+                        v.append(f"{tag} [float]: got {r!r}, exact {float(want)!r}, relative error {float(rel):.3g}{known}")
             except Exception as exc:  # noqa: BLE001
                 v.append(f"{tag} [float]: raised {type(exc).__name__}: {exc}")
             # ndarray magnitudes, converted functionally and in place (float and integer dtype): x * ratio, or a refusal
             import numpy as np
             ratio = float(fa / fb) if fb != 0 else None
-            if ratio and 1e-30 < abs(ratio) < 1e30:
+            if ratio and 1e-6 < abs(ratio) < 1e6:      # (fixed-width integers overflow silently for huge integer factors: NumPy's)
                 A_, B_ = pint_uc(uf, c["a"], "float", canonical=True), pint_uc(uf, c["b"], "float", canonical=True)
                 for arr in (np.array([1.0, 7.0, 1500.0]), np.array([1, 7, 1500]), np.array([-999, 2500], dtype=np.int64)):
                     want_arr = np.asarray(arr, dtype=float) * ratio
